@@ -59,7 +59,7 @@ GC == LET dead == {r \in DOMAIN rq : Collectable(r)} IN
       /\ tomb' = tomb \cup dead
       /\ UNCHANGED <<conn, out, bad>>
 
-LateTake(e) == /\ bad' = O!Flag(FALSE, "C01", "request sent to a backend after the client was answered", e.r)
+LateTake(e) == /\ bad' = O!Flag(FALSE, "C05", "request sent to a backend after the client was answered (not prescribed by the retry policy)", e.r)
                /\ UNCHANGED <<rq, conn, out>>
 LateReply(e, r) == /\ bad' = O!Flag(FALSE, "C01", "second response for one request", r)
                    /\ UNCHANGED <<rq, conn, out>>
